@@ -684,3 +684,98 @@ def _asarray2(eng, node, x, dtype=None):
     if isinstance(x, (SList, SDict, Rec)) or is_sym(x):
         return x
     return _array(eng, node, x, dtype)
+
+
+class DictItems:
+    def __init__(self, d):
+        self.d = d
+
+
+class DictValues:
+    def __init__(self, d):
+        self.d = d
+
+
+class ValueSet:
+    """set(d.values())"""
+
+    def __init__(self, d):
+        self.d = d
+
+
+def _dict_key_const(eng, d, name):
+    from .types import key_sort_of
+    return z3.FreshConst(key_sort_of(d.k), name)
+
+
+_old_list = PRELUDE["builtins.list"]
+
+
+@reg("builtins.list")
+def _list2(eng, node, x=()):
+    if isinstance(x, DictValues):
+        return x
+    return _old_list(eng, node, x)
+
+
+_old_set = PRELUDE["builtins.set"]
+
+
+@reg("builtins.set")
+def _set2(eng, node, x=()):
+    if isinstance(x, DictValues):
+        return ValueSet(x.d)
+    return _old_set(eng, node, x)
+
+
+_old_len = PRELUDE["builtins.len"]
+
+
+@reg("builtins.len")
+def _len2(eng, node, x):
+    if isinstance(x, ValueSet):
+        # number of distinct values: only what the callers need is axiomatised
+        d = x.d
+        if len(d.v.sorts()) != 1:
+            raise Unsupported("len(set(values)) of structured values")
+        n = eng.fresh("n_distinct", TInt)
+        k1, k2 = _dict_key_const(eng, d, "k1"), _dict_key_const(eng, d, "k2")
+        v = d.comps[0]
+        some = z3.Exists([k1], d.dom[k1])
+        two = z3.Exists([k1, k2], z3.And(d.dom[k1], d.dom[k2], v[k1] != v[k2]))
+        eng.assume(z3.And(n >= 0, (n >= 1) == some, (n > 1) == two))
+        return n
+    return _old_len(eng, node, x)
+
+
+_old_min = PRELUDE["builtins.min"]
+
+
+@reg("builtins.min")
+def _min2(eng, node, *a, **kw):
+    if len(a) == 1 and isinstance(a[0], DictValues) and not kw:
+        d = a[0].d
+        if len(d.v.sorts()) != 1:
+            raise Unsupported("min of structured values")
+        k = _dict_key_const(eng, d, "k")
+        eng.may_raise("ValueError", z3.Not(z3.Exists([k], d.dom[k])), node, "min of an empty sequence")
+        m = eng.fresh("min_value", d.v)
+        w = eng.fresh("min_witness", d.k)
+        from .types import key_term as _kt
+        wk = _kt(d.k, w)
+        eng.assume(z3.And(d.dom[wk], d.comps[0][wk] == m, z3.ForAll([k], z3.Implies(d.dom[k], m <= d.comps[0][k]))))
+        return m
+    return _old_min(eng, node, *a, **kw)
+
+
+@reg("networkx.set_node_attributes")
+def _nx_set_node_attributes(eng, node, graph, values, name=None):
+    """assumed contract for a uniform value: afterwards every node of the graph carries attribute `name` == value.
+    Graph objects are records with one field `attr_<name>` standing for 'the value all nodes carry' (None: not uniformly set)."""
+    from .engine import is_path
+    if not isinstance(graph, Rec) or not isinstance(name, str) or f"attr_{name}" not in graph.fields:
+        raise Unsupported("set_node_attributes form")
+    if not is_path(node.args[0]):
+        raise Unsupported("set_node_attributes on a temporary")
+    eng.write_path(eng.lvalue(node.args[0]) + [("attr", f"attr_{name}")], values)
+    return None
